@@ -96,6 +96,14 @@ func returnsResultsOf(fn *ssa.Function, call *ssa.Call) (bool, string) {
 				ex, ok := rv.(*ssa.Extract)
 				fromCall := ok && ex.Tuple == ssa.Value(call) && ex.Index == i
 				if i == 1 && !fromCall {
+					// `return v, nil` on the branch where the call's error was found to be nil is the same value
+					if c, isConst := rv.(*ssa.Const); isConst && c.IsNil() {
+						if errEx := extractOf(call, 1); errEx != nil && dominatedByNilBranch(errEx, ret.Block()) {
+							continue
+						}
+					}
+				}
+				if i == 1 && !fromCall {
 					return false, "a return does not propagate the error of " + calleeName(call)
 				}
 				if i == 0 && !fromCall && !isZero {
@@ -307,8 +315,35 @@ func checkC09(c *Ctx) {
 			r.Bad("C09.S1", key, p.Pos(fn.Pos()), "a compile entry point that does not delegate to "+FuncKey(core.compile)+", the compile function the text route uses")
 		}
 	}
+	// inner stages: unexported functions with the same shape of signature that only the core validate function (and its own
+	// stages) call are parts of it, not alternative routes
+	vreach := p.Reach(core.validate)
+	innerStage := map[*ssa.Function]bool{}
+	for _, fn := range vcFns {
+		if fn == core.validate || !vreach[fn] || (fn.Object() != nil && fn.Object().Exported()) {
+			continue
+		}
+		onlyFromCore := true
+		for _, caller := range p.ModuleFuncs() {
+			if caller == fn || caller == core.validate || vreach[caller] {
+				continue
+			}
+			for _, callee := range p.ModuleCallees(caller) {
+				if callee == fn {
+					onlyFromCore = false
+				}
+			}
+		}
+		if onlyFromCore {
+			innerStage[fn] = true
+			r.OK("C09.S1", FuncKey(fn), p.Pos(fn.Pos()), "an inner stage of "+FuncKey(core.validate)+" (unexported, called from nowhere else)")
+		}
+	}
 	for _, fn := range vcFns {
 		key := FuncKey(fn)
+		if innerStage[fn] {
+			continue
+		}
 		if fn == core.validate {
 			r.OK("C09.S1", key, p.Pos(fn.Pos()), "the validate-with-compiled function used by the text route")
 			continue
@@ -326,7 +361,7 @@ func checkC09(c *Ctx) {
 		}
 	}
 	for _, fn := range vcFns {
-		if fn == core.validate {
+		if fn == core.validate || innerStage[fn] {
 			continue
 		}
 		key := FuncKey(fn)
@@ -488,4 +523,56 @@ func funcNames(fs []*ssa.Function) []string {
 	}
 	sort.Strings(out)
 	return out
+}
+
+// extractOf finds the Extract instruction reading result idx of a call.
+func extractOf(call *ssa.Call, idx int) *ssa.Extract {
+	if refs := call.Referrers(); refs != nil {
+		for _, ref := range *refs {
+			if ex, ok := ref.(*ssa.Extract); ok && ex.Index == idx {
+				return ex
+			}
+		}
+	}
+	return nil
+}
+
+// dominatedByNilBranch: block b is only reached through the branch on which v was found to be nil.
+func dominatedByNilBranch(v ssa.Value, b *ssa.BasicBlock) bool {
+	for d := b; d != nil; d = d.Idom() {
+		idom := d.Idom()
+		if idom == nil {
+			break
+		}
+		iff, ok := idom.Instrs[len(idom.Instrs)-1].(*ssa.If)
+		if !ok {
+			continue
+		}
+		bo, ok := iff.Cond.(*ssa.BinOp)
+		if !ok {
+			continue
+		}
+		var other ssa.Value
+		if bo.X == v {
+			other = bo.Y
+		} else if bo.Y == v {
+			other = bo.X
+		} else {
+			continue
+		}
+		cst, ok := other.(*ssa.Const)
+		if !ok || !cst.IsNil() {
+			continue
+		}
+		if len(d.Preds) != 1 {
+			continue
+		}
+		if bo.Op.String() == "!=" && idom.Succs[1] == d {
+			return true
+		}
+		if bo.Op.String() == "==" && idom.Succs[0] == d {
+			return true
+		}
+	}
+	return false
 }
